@@ -22,7 +22,8 @@ def devices(h, faults=None, motor_delay=0.1, det_delay=0.05):
     det2 = Det("det2", lg, faults, delay=None, motors=[m1])
     sig = Sig("sig", lg, faults)
     fly = Flyer("fly", lg, faults, delay=det_delay)
-    return {"m1": m1, "m2": m2, "det": det, "det2": det2, "sig": sig, "fly": fly}
+    lm = LocMotor("lm", lg, faults, delay=motor_delay)
+    return {"m1": m1, "m2": m2, "det": det, "det2": det2, "sig": sig, "fly": fly, "lm": lm}
 
 
 def P(h, *what):
@@ -418,6 +419,53 @@ def make_clearcp(pos, cleanup_shape="finalize"):
     return builder
 
 
+def p_responses(h, d):
+    """one yield of (almost) every command whose response matters; the plan's return value is its own checksum."""
+    m1, lm, det, det2, fly, sig = d["m1"], d["lm"], d["det"], d["det2"], d["fly"], d["sig"]
+
+    def cb(name, doc):
+        pass
+
+    def body():
+        yield Msg("RE_class")
+        yield Msg("rewindable", None, None)
+        yield Msg("stage", det)
+        yield Msg("open_run", tag="resp")
+        yield Msg("checkpoint")
+        yield Msg("locate", lm)
+        yield Msg("set", lm, 1.5, group="a")
+        yield Msg("set", m1, 0.5, group="a")
+        yield Msg("wait", None, group="a")
+        yield Msg("locate", lm)
+        tok = yield Msg("subscribe", None, cb, "event")
+        yield Msg("trigger", det, group="t")
+        yield Msg("wait", None, group="t")
+        yield Msg("create", name="primary")
+        yield Msg("read", det)
+        yield Msg("read", lm)
+        yield Msg("save")
+        yield Msg("checkpoint")
+        yield Msg("configure", det)
+        yield Msg("create", name="primary")
+        yield Msg("read", det)
+        yield Msg("read", lm)
+        yield Msg("save")
+        yield Msg("unsubscribe", None, tok)
+        yield Msg("kickoff", fly, group="k")
+        yield Msg("wait", None, group="k")
+        yield Msg("complete", fly, group="c")
+        yield Msg("wait", None, group="c")
+        yield Msg("collect", fly, return_payload=True)
+        yield Msg("sleep", None, 0.05)
+        yield Msg("null")
+        yield Msg("close_run")
+        yield Msg("unstage", det)
+        P(h, "body-complete")
+        return ("responses-done", 42)
+
+    return body()
+
+
 CORPUS = {
     "count": p_count,
     "scan": p_scan,
@@ -427,6 +475,7 @@ CORPUS = {
     "custom": p_custom,
     "custom_mon": p_custom_mon,
     "mixed": p_mixed,
+    "responses": p_responses,
     "neverclose": p_neverclose,
     "norun": p_norun,
     "nested": p_nested,
@@ -444,3 +493,36 @@ CORPUS = {
     "spaced8": make_spaced(8, 2),
     "spaced_tail": make_spaced(3, 2, tail=6),
 }
+
+
+# ---- named wrappers (JSON-able by name, for replay files) ------------------------------------------
+
+
+def w_ignore(plan, h, d):
+    return traced(plan, h)
+
+
+def w_handle(plan, h, d):
+    def outer():
+        try:
+            return (yield from traced(plan, h))
+        except Exception as e:  # noqa: BLE001
+            P(h, "handled", e)
+            yield Msg("null", None, "recovered")
+            return "recovered"
+
+    return outer()
+
+
+def w_transform(plan, h, d):
+    def outer():
+        try:
+            return (yield from traced(plan, h))
+        except Exception as e:  # noqa: BLE001
+            P(h, "transformed", e)
+            raise KeyError("transformed") from e
+
+    return outer()
+
+
+WRAPS = {"traced": w_ignore, "traced-handle": w_handle, "traced-transform": w_transform}
